@@ -1,8 +1,68 @@
 import Drive.Util
-/-! Trace validator for the `tinylfu` stream(s).  (stub: to be filled in) -/
-namespace Drive.TinyLFU
+import RV.Model.TinyLFU
+/-!
+Trace validator for the `tinylfu` stream (C18, TinyLFU part).
 
-def run (_h : IO.FS.Stream) : IO Verdict :=
-  return { ok := false, lines := 0, checks := 0, msg := "component tinylfu not implemented" }
+  new <numCounters> <seed0..3> <doorEntries> <doorLocs>
+  door <exp> <size> <locs> <shift>          observed doorkeeper parameters
+  inc <key>                                 Increment
+  push <key>*                               Push
+  est <key> <value>                         Estimate and its observed result
+  reset | clear
+  snap <incrs> <resetAt> <doorElemNum> <door bytes hex> <row0> <row1> <row2> <row3>
+-/
+namespace Drive.TinyLFU
+open RV.TinyLFU
+
+structure St where
+  t : Option TinyLFU := none
+
+def step (st : St) (_n : Nat) (ws : List String) : Except String (St × Nat) :=
+  match ws with
+  | ["new", n, s0, s1, s2, s3, de, dl] =>
+    match i64? n, u64? s0, u64? s1, u64? s2, u64? s3, u64? de, u64? dl with
+    | some n, some a, some b, some c, some d, some de, some dl =>
+      .ok ({ t := some (RV.TinyLFU.new n #[a, b, c, d] de dl) }, 0)
+    | _, _, _, _, _, _, _ => .error "bad new"
+  | ["door", e, sz, l, sh] =>
+    match st.t, u64? e, u64? sz, u64? l, u64? sh with
+    | some t, some e, some sz, some l, some sh =>
+      let b := t.door
+      if b.sizeExp == e && b.size == sz && b.setLocs == l && b.shift == sh then .ok (st, 1)
+      else .error s!"doorkeeper parameters: implementation exp={e.toNat} size={sz.toNat} locs={l.toNat} shift={sh.toNat}, model exp={b.sizeExp.toNat} size={b.size.toNat} locs={b.setLocs.toNat} shift={b.shift.toNat}"
+    | _, _, _, _, _ => .error "bad door"
+  | ["inc", k] =>
+    match st.t, u64? k with
+    | some t, some k => .ok ({ t := some (increment t k) }, 0)
+    | _, _ => .error "bad inc"
+  | "push" :: ks =>
+    match st.t, ks.mapM u64? with
+    | some t, some ks => .ok ({ t := some (push t ks) }, 0)
+    | _, _ => .error "bad push"
+  | ["est", k, v] =>
+    match st.t, u64? k, i64? v with
+    | some t, some k, some v =>
+      let m := estimate t k
+      if m == v then .ok (st, 1) else .error s!"Estimate({k.toNat}): implementation {v.toInt}, model {m.toInt}"
+    | _, _, _ => .error "bad est"
+  | ["reset"] => match st.t with
+    | some t => .ok ({ t := some (reset t) }, 0)
+    | none => .error "reset before new"
+  | ["clear"] => match st.t with
+    | some t => .ok ({ t := some (clear t) }, 0)
+    | none => .error "clear before new"
+  | "snap" :: inc :: ra :: en :: door :: rs =>
+    match st.t, i64? inc, i64? ra, u64? en, parseHex door, rs.mapM parseHex with
+    | some t, some inc, some ra, some en, some door, some rows =>
+      if t.incrs != inc then .error s!"incrs: implementation {inc.toInt}, model {t.incrs.toInt}"
+      else if t.resetAt != ra then .error s!"resetAt: implementation {ra.toInt}, model {t.resetAt.toInt}"
+      else if t.door.elemNum != en then .error s!"doorkeeper ElemNum: implementation {en.toNat}, model {t.door.elemNum.toNat}"
+      else if t.door.bytes != door then .error "doorkeeper bits differ from the model"
+      else if rows != t.freq.rows then .error "sketch rows differ from the model"
+      else .ok (st, 5)
+    | _, _, _, _, _, _ => .error "bad snap"
+  | _ => .error s!"unknown record {ws}"
+
+def run (h : IO.FS.Stream) : IO Verdict := runLines h ({} : St) step
 
 end Drive.TinyLFU
